@@ -79,6 +79,7 @@ static Verdict judge(bool victim_server, bool ecdhe, bool cauth, bool resumed, c
         if (kk < e.size() && e[kk].t == x.t) {
             if (!x.intact) {
                 if (x.t == T_FIN || x.t == T_CCS) { v.viol_at = (int) i; v.why = x.t == T_FIN ? "Finished verify_data is wrong" : "ChangeCipherSpec body is not 1"; v.sig = x.t == T_FIN ? "completed-with-bad-finished" : "completed-with-bad-ccs"; }
+                else if (x.t == T_CV) { v.viol_at = (int) i; v.why = "CertificateVerify signature is wrong"; v.sig = "completed-with-bad-certificate-verify"; }
                 else v.unk_at = (int) i;   // right type in the right place with a foreign body: a parser decides
                 break;
             }
@@ -116,20 +117,23 @@ static const int N_SV = 6;
 //   that was cut before it completed: 1 = after ServerHelloDone, 2 = after the server's NewSessionTicket, 3 = after NewSessionTicket + CCS (the server's Finished
 //   never arrived); cut_err: the connection ended with a fatal alert from the peer instead of silently.  Nothing of that handshake may be offered for resumption
 //   (RFC 5077 3.3: a ticket is only valid once the server's Finished has been verified): connection 2 is a full handshake.
-struct Mode { bool victim_server; int sv; bool cauth; int ems; bool resumed = false; bool ticket = false; int cut = 0; bool cut_err = false; };
+// cticket (server victim only; the server keys always have session-ticket keys loaded): the puppet client offers the SessionTicket extension, 1 = empty,
+//   2 = with a ticket the server never issued.  The server acknowledges it and sends a NewSessionTicket before its CCS (state "ticket expected" on both sides).
+struct Mode { bool victim_server; int sv; bool cauth; int ems; bool resumed = false; bool ticket = false; int cut = 0; bool cut_err = false; int cticket = 0; };
 static std::string mode_str(const Mode &m) { static const char *en[] = { "both", "puppet-off", "victim-off", "both-off" };
     return fmt("victim=%s %s %s cauth=%d ems=%s", m.victim_server ? "server" : "client", SV[m.sv].name,
+               m.cticket ? (m.cticket == 1 ? "full+ticket-ext" : "full+bogus-ticket") :
                m.cut ? fmt("ticket-from-cut-handshake(%s%s)", m.cut == 1 ? "after-SHD" : m.cut == 2 ? "after-NST" : "after-NST+CCS", m.cut_err ? ",alert" : "").c_str() :
                m.ticket ? (m.resumed ? "id+ticket-accepted" : "id+ticket-declined") : m.resumed ? "resumed" : "full", m.cauth, en[m.ems]); }
 
-struct Item { Step st; bool join = false; };
+struct Item { Step st; bool join = false; bool forged = false; };   // forged: body overwritten (Finished verify_data / CertificateVerify signature)
 
 struct Outcome {
     bool ever_complete = false; int complete_after = -1;   // index of the item after whose delivery completion was first observed
     bool dead = false; std::vector<char> reached;          // victim was alive when item i was delivered
     Bytes delivered; bool early_delivery = false;
     bool puppet_fin_ok = false; std::string puppet_err; Bytes puppet_app_in; bool ems_active = false; int last_rc = 0; int alert_from_victim = -1;
-    bool open_failed = false, resumed = false; size_t ch_sid_len = 0, ch_ticket_len = 0;
+    bool open_failed = false, resumed = false, victim_sent_nst = false; size_t ch_sid_len = 0, ch_ticket_len = 0;
 };
 
 static int32 cb_accept_valid(ssl_t *, psX509Cert_t *, int32 alert) { return alert; }
@@ -149,6 +153,7 @@ static Outcome run_trace(const Mode &m, const std::vector<Item> &items, size_t c
     if (m.ticket || m.cut) vc.tickets = true;
     pup::Config pc; pc.role = m.victim_server ? pup::CLIENT : pup::SERVER; pc.version = sv.wire; pc.suite = sv.suite; pc.ems = !(m.ems == 1 || m.ems == 3);
     pc.client_auth = m.cauth; pc.seed = seed; pc.pki_dir = verif_dir() + "/pki";
+    if (m.cticket) { pc.offer_ticket_ext = true; if (m.cticket == 2) pc.client_ticket.assign(120, 0x5a); }
     // session-id resumption: an honest full handshake first (fills the server's session cache / the client's sslSessionId_t), then the connection under test
     sslSessionId_t *sid = nullptr;
     struct SidGuard { sslSessionId_t *&s; ~SidGuard() { if (s) matrixSslDeleteSessionId(s); } } sid_guard{ sid };
@@ -197,6 +202,7 @@ static Outcome run_trace(const Mode &m, const std::vector<Item> &items, size_t c
     if (victim_says && V.hs_complete() && !victim_dead(V)) { V.send(*victim_says); P.feed(V.take_wire()); }
     observe((int) items.size());
     o.dead = victim_dead(V); o.delivered = V.delivered; o.last_rc = V.last_rc;
+    for (auto &sn : P.seen()) if (sn.type == pup::M_NEW_SESSION_TICKET) o.victim_sent_nst = true;
     o.resumed = P.resumed(); o.ch_sid_len = P.client_hello_session_id().size(); o.ch_ticket_len = P.client_hello_ticket_len();
     o.puppet_fin_ok = P.peer_finished_ok(); o.puppet_err = P.error(); o.puppet_app_in = P.app_in(); o.ems_active = P.ems_active();
     o.alert_from_victim = P.fatal_alert() ? P.alert_desc() : -1;
@@ -228,19 +234,20 @@ static std::string selftest_mode(const Mode &m) {
     if (o.ems_active != want_ems) return d + fmt(": EMS negotiated=%d, expected %d", o.ems_active, want_ems);
     if (o.dead) return d + ": victim reported an error on the honest script";
     if (o.resumed != m.resumed) return d + fmt(": resumed=%d, expected %d", o.resumed, m.resumed);
+    if (m.cticket && !o.victim_sent_nst) return d + ": the server did not issue a NewSessionTicket although the client offered the extension";
     if (m.ticket && (o.ch_sid_len == 0 || o.ch_ticket_len == 0)) return d + fmt(": the client's ClientHello should carry a session id and a ticket (id %zu bytes, ticket %zu bytes)", o.ch_sid_len, o.ch_ticket_len);
     return "";
 }
 static const std::string &selftest(const Mode &m) {
     static std::map<int, std::string> done;
-    int key = (m.victim_server ? 1 : 0) | m.sv << 1 | (m.cauth ? 1 : 0) << 4 | m.ems << 5 | (m.resumed ? 1 : 0) << 7 | (m.ticket ? 1 : 0) << 8 | m.cut << 9 | (m.cut_err ? 1 : 0) << 11;
+    int key = (m.victim_server ? 1 : 0) | m.sv << 1 | (m.cauth ? 1 : 0) << 4 | m.ems << 5 | (m.resumed ? 1 : 0) << 7 | (m.ticket ? 1 : 0) << 8 | m.cut << 9 | (m.cut_err ? 1 : 0) << 11 | m.cticket << 12;
     auto f = done.find(key); if (f != done.end()) return f->second;
     return done[key] = selftest_mode(m);
 }
 
 // ------------------------------------------------------------------ deviation ops
-enum { O_DEL, O_DUP, O_SWAP, O_RETAG, O_SUBST, O_INJECT, O_FLIPFIN, O_PROT, O_MODE, O_CCSBODY, O_SECRET, O_N };
-static const char *op_name[] = { "delete", "duplicate", "swap", "retag", "substitute", "inject", "flip-finished", "wrong-protection", "trace-of-other-mode", "ccs-body", "wrong-session-secret" };
+enum { O_DEL, O_DUP, O_SWAP, O_RETAG, O_SUBST, O_INJECT, O_FLIPFIN, O_PROT, O_MODE, O_CCSBODY, O_SECRET, O_FINFRAG, O_CVFRAG, O_N };
+static const char *op_name[] = { "delete", "duplicate", "swap", "retag", "substitute", "inject", "flip-finished", "wrong-protection", "trace-of-other-mode", "ccs-body", "wrong-session-secret", "fragmented-finished", "fragmented-certificate-verify" };
 struct Op { int kind = -1, pos = 0, arg = 0; std::string text; };
 
 static int item_tok(const Item &x) { return x.st.type_override >= 0 ? tok_of_hs_type(x.st.type_override) : tok_of_msg(x.st.msg); }
@@ -302,6 +309,20 @@ static bool apply_op(Op &op, std::vector<Item> &it, const Mode &m) {
         op.pos = f; op.arg = (int) ((unsigned) op.arg % bodies.size()); it[f].st.payload = bodies[op.arg];
         op.text = fmt("ccs-body@%d(%s)", f, hex(bodies[op.arg].data(), bodies[op.arg].size(), 4).c_str()); return true;
     }
+    case O_FINFRAG: case O_CVFRAG: {
+        // Finished / CertificateVerify split over several records (arg & 0xff = handshake bytes per record, >= 4), honest (legal: must be accepted) or with a
+        // forged body (arg >> 8: 1 all-zero, 2 all-0xff, 3 arbitrary bytes, 4 one flipped bit): the receiver has to check the reassembled message against the
+        // transcript up to, not including, the message - whichever call the last fragment arrives in
+        int want = op.kind == O_FINFRAG ? pup::M_FINISHED : pup::M_CERTIFICATE_VERIFY, f = -1; for (size_t i = 0; i < n; i++) if (it[i].st.msg == want) f = (int) i;
+        if (f < 0) break;
+        int fr = op.arg & 0xff, body = (op.arg >> 8) % 5; if (fr < 4) fr = 4;
+        Item &x = it[f]; x.st.frag = (size_t) fr; x.st.coalesce = false; if (f > 0) it[f - 1].st.coalesce = false;
+        size_t from = op.kind == O_FINFRAG ? 4 : 8;   // verify_data / the signature bytes behind type+length (+ algorithm and signature length)
+        if (body == 4) x.st.flip_bit = 77;
+        else if (body) { x.forged = true; x.st.mutate = [body, from](Bytes &m) { for (size_t i = from; i < m.size(); i++) m[i] = body == 1 ? 0 : body == 2 ? 0xff : (uint8_t) (i * 37 + 11); }; }
+        static const char *bn[] = { "honest", "all-zero", "all-ff", "arbitrary", "bit-flipped" };
+        op.pos = f; op.text = fmt("%s@%d(%d bytes per record,%s)", op.kind == O_FINFRAG ? "fragmented-finished" : "fragmented-certificate-verify", f, fr, bn[body]); return true;
+    }
     case O_SECRET: {   // the abbreviated handshake, keyed by the puppet with a master secret that is not the session's (arg 0: 48 zero bytes, 1: random);
                        // in a mode where the victim expects a full handshake the abbreviated trace is sent all the same (fresh session id, no ticket extension)
         if (!m.resumed) { Mode m2 = m; m2.resumed = true; it = base_items(m2); }
@@ -331,6 +352,8 @@ static Op draw_op(Tape &t, const std::vector<Item> &it) {
     case O_MODE: op.arg = (int) t.below(3); break;
     case O_CCSBODY: op.arg = (int) t.below(6); break;
     case O_SECRET: op.arg = (int) t.below(4); break;
+    case O_FINFRAG: op.arg = 4 + (int) t.below(12); op.arg |= (int) t.below(5) << 8; break;   // every split of the 16-byte message with a complete header in the first record
+    case O_CVFRAG: op.arg = t.pick(std::vector<int>{ 4, 5, 8, 100, 131, 200, 255 }); op.arg |= (int) t.below(5) << 8; break;
     }
     return op;
 }
@@ -350,6 +373,8 @@ static std::vector<Op> all_singles(const Mode &m) {
     for (int a = 0; a < 3; a++) add(O_MODE, 0, a);
     for (int a = 0; a < 6; a++) add(O_CCSBODY, 0, a);
     for (int a = 0; a < 4; a++) add(O_SECRET, 0, a);
+    for (int fr : { 4, 8, 15 }) for (int b = 0; b < 5; b++) add(O_FINFRAG, 0, fr | b << 8);
+    for (int fr : { 4, 200 }) for (int b = 0; b < 5; b += 2) add(O_CVFRAG, 0, fr | b << 8);
     return r;
 }
 // the modes of the bounded-exhaustive target
@@ -363,6 +388,8 @@ static std::vector<Mode> enum_modes() {
         // client whose session id went through a handshake that was cut after the server's NewSessionTicket (and two neighbouring cut points)
         if (vs == 0 && ems == 0 && (sv == 0 || sv == 1 || sv == 4)) { Mode m; m.victim_server = false; m.sv = sv; m.cauth = false; m.ems = 0; m.cut = sv == 4 ? 3 : 2; m.cut_err = sv == 1; r.push_back(m); }
         if (vs == 0 && ems == 0 && sv == 0) { Mode m; m.victim_server = false; m.sv = sv; m.cauth = true; m.ems = 0; m.cut = 1; m.cut_err = true; r.push_back(m); }
+        // server with ticket keys whose client offers the SessionTicket extension (empty / bogus ticket): NewSessionTicket is expected - from the server only
+        if (vs == 1 && ems == 0 && (sv == 0 || sv == 1)) { Mode m; m.victim_server = true; m.sv = sv; m.cauth = sv == 1; m.ems = 0; m.cticket = 1 + sv; r.push_back(m); }
     }
     return r;
 }
@@ -374,7 +401,7 @@ static std::vector<Tk> tokenize(const std::vector<Item> &it) {
         if (x.st.msg == pup::M_ALERT && !(x.st.payload.size() == 2 && x.st.payload[0] == 1 && x.st.payload[1] != 0)) k.t = T_OTHER;
         bool enc = x.st.prot == pup::P_ENCRYPTED || (x.st.prot == pup::P_STATE && w_enc);
         k.prot_ok = enc == w_enc; k.enc = enc;
-        k.intact = x.st.type_override < 0 && x.st.flip_bit < 0 && !(x.st.msg == pup::M_CCS && !x.st.payload.empty() && x.st.payload != Bytes{ 1 });
+        k.intact = x.st.type_override < 0 && x.st.flip_bit < 0 && !x.forged && !(x.st.msg == pup::M_CCS && !x.st.payload.empty() && x.st.payload != Bytes{ 1 });
         tk.push_back(k);
         if (x.st.msg == pup::M_CCS) w_enc = true;
     }
@@ -400,6 +427,7 @@ static void prop(Tape &t, Ctx &c) {
     uint32_t seed = t.u16();
     m.resumed = rk == 0;
     if (rk == 4 && !m.victim_server) { m.ticket = true; m.resumed = seed & 1; }
+    if (rk == 3 && m.victim_server) m.cticket = 1 + (seed & 1);   // server with ticket keys + client offering the SessionTicket extension
     if (rk == 3 && !m.victim_server) { m.cut = 1 + (int) ((seed >> 1) % 3); if (m.cut == 1 && (seed & 8)) m.cut = 2; m.cut_err = seed & 1; }   // ticket-from-cut-handshake, mostly cut after NewSessionTicket
     unsigned nsel = (unsigned) t.below(10); int nops = nsel == 0 ? 0 : nsel <= 5 ? 1 : 2;   // single deviations are also enumerated completely by c06_seq12_singles
     std::vector<Item> it = base_items(m);
@@ -425,12 +453,17 @@ static void prop(Tape &t, Ctx &c) {
         bool boundary = msg == pup::M_CLIENT_HELLO || msg == pup::M_SERVER_HELLO_DONE || msg == pup::M_FINISHED;
         bool next_hs = i + 1 < it.size() && is_hs_item(it[i + 1]);
         bool prev_open = i > 0 && it[i - 1].st.coalesce;
-        if (hs && next_hs && !boundary && it[i].st.prot == it[i + 1].st.prot && t.chance(1, 3)) it[i].st.coalesce = true;      // same record
+        if (hs && next_hs && !boundary && it[i].st.prot == it[i + 1].st.prot && !it[i].st.frag && !it[i + 1].st.frag && t.chance(1, 3)) it[i].st.coalesce = true;      // same record
         else if (!boundary && i + 1 < it.size() && t.chance(1, 3)) it[i].join = true;                                              // same receive call
         else if (msg == pup::M_FINISHED && i + 1 < it.size() && it[i + 1].st.msg == pup::M_APPDATA && t.chance(1, 6)) { it[i].join = true; false_start = true; }
         // A message is fragmented only when it has its records to itself: MatrixSSL answers decode_error to a record that holds the tail of one
         // fragmented handshake message and the head of another fragmented one (legal per RFC 5246 6.2.1; a conformance limit, not a C06 matter).
-        if (hs && !prev_open && !it[i].st.coalesce && t.chance(1, 3)) it[i].st.frag = t.pick(frags);
+        if (hs && !prev_open && !it[i].st.coalesce && !it[i].st.frag && t.chance(1, 3)) {
+            it[i].st.frag = t.pick(frags);
+            // Finished (16 bytes): every split point that leaves the 4-byte header in the first record; rarely a split inside the header (MatrixSSL needs the
+            // complete header in the first fragment: decode_error otherwise, legal per RFC - "receiver may refuse")
+            if (msg == pup::M_FINISHED && it[i].st.type_override < 0) it[i].st.frag = t.chance(1, 8) ? 1 + t.below(3) : 4 + t.below(12);
+        }
     }
 
     std::vector<Tk> tk = tokenize(it);
@@ -447,10 +480,11 @@ static void prop(Tape &t, Ctx &c) {
     // data right behind the puppet's Finished while the victim's Finished is still outstanding (client in a full handshake, server in an abbreviated one):
     // RFC 5246 7.4.9 says wait, RFC 7918 false start says a client may; the receiver may or may not take it
     if (false_start && m.victim_server != m.resumed) { v.weak = true; c.count("false-start-data"); }
-    // MatrixSSL takes the transcript snapshot for Finished / CertificateVerify when it sees the first fragment and loses it before the last one arrives
-    // (hsMsgHash is a local of parseSSLHandshake): it answers decrypt_error to a fragmented Finished/CertificateVerify.  Legal per RFC 5246 6.2.1, never
-    // sent by real stacks; rejecting is not a C06 matter, so such traces only get the safety invariants.
-    for (auto &x : it) if (x.st.frag && x.st.frag < 16 + 256 && (x.st.msg == pup::M_FINISHED || x.st.msg == pup::M_CERTIFICATE_VERIFY) && x.st.type_override < 0) { if (x.st.msg == pup::M_FINISHED ? x.st.frag < 16 : true) { v.weak = true; c.count("fragmented-finished-or-cv"); } }   // client data right behind its Finished: RFC 7918 false start, the server may or may not take it
+    // A handshake message whose first fragment does not hold the complete 4-byte header is answered with decode_error (legal per RFC 5246 6.2.1, a conformance
+    // limit): safety invariants only.  Every other fragmentation - including Finished and CertificateVerify, which need the transcript snapshot taken when the
+    // LAST fragment arrives - is part of the legal language.
+    for (auto &x : it) if (x.st.frag && x.st.frag < 4 && is_hs_item(x)) { v.weak = true; c.count("header-split-across-records"); }
+    for (auto &x : it) if (x.st.frag && ((x.st.msg == pup::M_FINISHED && x.st.frag < 16) || (x.st.msg == pup::M_CERTIFICATE_VERIFY && x.st.frag < 260))) c.count("fragmented-finished-or-cv");
 
     std::string trace, opd; for (size_t i = 0; i < it.size(); i++) { trace += tok_short[tk[i].t]; if (it[i].st.frag) trace += fmt("/%zu", it[i].st.frag); if (it[i].st.coalesce) trace += "+"; else if (it[i].join) trace += "&"; else trace += " "; }
     for (auto &o : ops) opd += o.text + " ";
@@ -465,10 +499,10 @@ static void prop(Tape &t, Ctx &c) {
     // ---- safety invariants (every case)
     VF_CHECK(!o.early_delivery, "appdata-delivered-before-handshake-complete", "APP_DATA delivered while matrixSslHandshakeIsComplete()==false; %s", desc.c_str());
     std::string sig = v.sig.empty() ? "completed-illegal-trace" : v.sig;
-    std::string shape = fmt("%d|%d|%d|%d%d%d|", m.victim_server, m.sv, m.cauth, m.resumed, m.ticket, m.cut);
-    for (auto &op : ops) shape += fmt("%d.%d.%d|", op.kind, op.pos, (op.kind == O_SUBST || op.kind == O_INJECT || op.kind == O_RETAG || op.kind == O_SECRET) ? op.arg : 0);
+    std::string shape = fmt("%d|%d|%d|%d%d%d%d|", m.victim_server, m.sv, m.cauth, m.resumed, m.ticket, m.cut, m.cticket);
+    for (auto &op : ops) shape += fmt("%d.%d.%d|", op.kind, op.pos, (op.kind == O_SUBST || op.kind == O_INJECT || op.kind == O_RETAG || op.kind == O_SECRET || op.kind == O_FINFRAG || op.kind == O_CVFRAG) ? op.arg : 0);
     c.count(fmt("ops:%d", (int) ops.size())); for (auto &op : ops) c.count(std::string("op:") + op_name[op.kind]);
-    c.count(std::string("victim:") + (m.victim_server ? "server" : "client")); c.count(std::string("sv:") + SV[m.sv].name); c.count(m.cut ? "kind:ticket-from-cut-handshake" : m.ticket ? (m.resumed ? "kind:id+ticket-accepted" : "kind:id+ticket-declined") : m.resumed ? "kind:resumed" : "kind:full");
+    c.count(std::string("victim:") + (m.victim_server ? "server" : "client")); c.count(std::string("sv:") + SV[m.sv].name); c.count(m.cticket ? "kind:full+client-ticket-ext" : m.cut ? "kind:ticket-from-cut-handshake" : m.ticket ? (m.resumed ? "kind:id+ticket-accepted" : "kind:id+ticket-declined") : m.resumed ? "kind:resumed" : "kind:full");
     if (o.ever_complete) c.count("victim-completed");
 
     if (v.viol_at >= 0 && v.done_at < 0) {
